@@ -1,6 +1,7 @@
 package checks
 
 import (
+	"bytes"
 	"encoding/binary"
 	"fmt"
 
@@ -18,7 +19,7 @@ func registerC05() {
 		Level: "exploration",
 		Rule: "Files built through the public API (NewHeader, NewFile, message constructors, exported fields) for all 17 file types x all hosted message types; field subsets " +
 			"{none, one, half, all, PRNG} differing between messages of one slice (forces the union definition); boundary and PRNG values; both byte orders; headers with and " +
-			"without CRC; protocol V10/V20. The bytes Encode writes are parsed by the independent strict grammar parser (header, data size, both CRCs, definition before data, " +
+			"without CRC; protocol V10/V20; every third case is preceded by an Encode that fails (writer error on the 1st-3rd write, or a string that is not valid UTF-8). The bytes Encode writes are parsed by the independent strict grammar parser (header, data size, both CRCs, definition before data, " +
 			"record lengths, size multiple of base size, known base byte, arch byte), every definition is checked against the profile, the stream is interpreted by the reference " +
 			"interpreter and compared with the File's own values, and the File's header data size / header CRC / file CRC are compared with the bytes written. Non-trivial: the File " +
 			"has at least two messages with a field set; distinct by digest of the encoded bytes",
@@ -70,6 +71,11 @@ func c05Case(c *lib.Ctx, idx uint64) {
 		return
 	}
 	pre := lib.FileContent(f)
+	if idx%3 == 2 {
+		// A failed Encode just before (writer error part-way, or a File with a string that cannot
+		// be encoded) must leave nothing behind that shows up in this call's output.
+		failedEncodePrelude(c, rng, idx)
+	}
 	out, err, o := lib.GuardedEncode(f, archOrder(arch))
 	c.Eval()
 	c.SetInflight(out)
@@ -179,6 +185,46 @@ func c05Case(c *lib.Ctx, idx uint64) {
 		c.Nontrivial(out)
 	}
 	c.Sample("file", 2, map[string]interface{}{"file_type": ft, "arch": arch, "bytes": len(out), "definitions": ndef, "data_records": ndata})
+}
+
+// failWriter fails on its n-th Write call.
+type failWriter struct {
+	n, calls int
+}
+
+func (w *failWriter) Write(p []byte) (int, error) {
+	w.calls++
+	if w.calls >= w.n {
+		return 0, lib.ErrInjected
+	}
+	return len(p), nil
+}
+
+func failedEncodePrelude(c *lib.Ctx, rng *lib.Rand, idx uint64) {
+	g := lib.GenFile(rng, lib.FileGenOpts{FileType: lib.FileTypes[(idx/3)%uint64(len(lib.FileTypes))].Type, MaxPerSlot: 3, Subset: 3})
+	if g == nil {
+		return
+	}
+	var err error
+	var o lib.Outcome
+	if idx%2 == 0 {
+		w := &failWriter{n: 1 + int(idx/6)%3}
+		o = lib.Guard(func() { err = fit.Encode(w, g, archOrder(int(idx/2)%2)) })
+		c.Count("prelude_failing_writer", 1)
+	} else {
+		g.FileId.ProductName = "bad\xff\xfeutf8"
+		var buf bytes.Buffer
+		o = lib.Guard(func() { err = fit.Encode(&buf, g, archOrder(int(idx/2)%2)) })
+		c.Count("prelude_unencodable_string", 1)
+	}
+	c.Eval()
+	if o.Panicked {
+		c.Violation(nil, "Encode panicked instead of returning an error (failing writer / invalid string): %s", o.Panic)
+		return
+	}
+	if err == nil {
+		c.Violation(nil, "Encode returned nil although the writer failed or a string was not valid UTF-8")
+	}
 }
 
 func registerC06() {
